@@ -44,6 +44,8 @@ structure Inv (s : FState) (P : List Id) : Prop where
   topNone : s.lastSent = none → P = [] ∧ ∀ e ∈ s.db.entries, e.sent = false
   cache : CacheOK s
   initOk : ∀ i n, s.db.initNum = some (i, n) → i ≠ ""
+  /-- the last LIB announced to the handler, once there is one, is the buffer's LIB -/
+  seen : s.lastLIBSeen = Ref.empty ∨ s.lastLIBSeen = s.db.libRef
 
 theorem numOf_empty (db : DB) (hw : WfEntries db) (hi : ∀ i n, db.initNum = some (i, n) → i ≠ "") :
     db.numOf? "" = none := by
@@ -601,8 +603,18 @@ theorem processIrr_st (cfg : Config) (a : Acc) (seg : List Entry) (head : Ref) (
       | none => exact ⟨a.st.lastLIBSeen, by simp only; rw [hph]⟩
       | some l => exact ⟨l.blk.ref, by simp only; rw [hph]⟩
 
-theorem inv_seen (s : FState) (Q : List Id) (x : Ref) (h : Inv s Q) : Inv { s with lastLIBSeen := x } Q :=
-  ⟨h.libNe, h.wf, h.heights, h.path, h.libNotin, h.pSent, h.topSome, h.topNone, h.cache, h.initOk⟩
+theorem inv_seen (s : FState) (Q : List Id) (x : Ref) (h : Inv s Q) (hx : x = s.db.libRef) : Inv { s with lastLIBSeen := x } Q :=
+  ⟨h.libNe, h.wf, h.heights, h.path, h.libNotin, h.pSent, h.topSome, h.topNone, h.cache, h.initOk, Or.inr hx⟩
+
+theorem processIrr_st_nofail (cfg : Config) (a : Acc) (seg : List Entry) (head : Ref) (actual : Id → Option Blk)
+    (hf : a.failed = false) (hn : a.failAt = none) (l : Entry) (hl : seg.getLast? = some l) :
+    (processIrr cfg a seg head actual).st = { a.st with lastLIBSeen := l.blk.ref } := by
+  have hp := phase_nofail a (irrEvents cfg seg head actual) ⟨hf, hn⟩
+  rw [processIrr_eq]
+  simp only [hf, Bool.false_eq_true, if_false, hp.1]
+  unfold setSeen
+  rw [hl]
+  simp only [hp.2.2.2]
 
 theorem irrEvents_sb (cfg : Config) (hirr : cfg.matches .irreversible = true) (seg : List Entry) (head : Ref)
     (actual : Id → Option Blk) :
@@ -669,7 +681,7 @@ theorem advance_inv (cfg : Config) (hirr : cfg.matches .irreversible = true) (a 
   obtain ⟨hne, seg, r, hrev, hsegne, hsegeq, hstalleq⟩ := hasNew_inv a.st.db cfg.fsb R hnew
   have hr : r = true := revSegAux_reach _ _ _ _ _ _ _ _ hlibT hrev
   subst hr
-  obtain ⟨hsp, hstop, hsn, _, hsfa⟩ := reversibleSegment_sound _ _ _ _ hrev
+  obtain ⟨hsp, hstop, hsn, hslast, hsfa⟩ := reversibleSegment_sound _ _ _ _ hrev
   have hsn' : a.st.db.libRef.id ∉ seg.map (·.blk.id) := by
     intro hm; obtain ⟨x, hx, hxe⟩ := List.mem_map.mp hm; exact hsn x hx hxe
   have hRne : R.id ≠ "" := by simpa using hRe
@@ -738,7 +750,13 @@ theorem advance_inv (cfg : Config) (hirr : cfg.matches .irreversible = true) (a 
   have hn1 := processIrr_nofail cfg { a with st := withDb db' a.st } seg b.ref (fun i => (a.st.db.find i).map (·.blk)) ⟨hf, hn⟩
   obtain ⟨t2, ht2, hrun2⟩ := processStalled_run cfg _ (a.st.db.stalledInSegment seg) b.ref hn1.1 hn1.2.1
   have hn2 := processStalled_nofail cfg _ (a.st.db.stalledInSegment seg) b.ref ⟨hn1.1, hn1.2.1⟩
-  obtain ⟨seen, hseen⟩ := processIrr_st cfg { a with st := withDb db' a.st } seg b.ref (fun i => (a.st.db.find i).map (·.blk))
+  obtain ⟨lseg, hlseg⟩ : ∃ l, seg.getLast? = some l := by
+    cases hg : seg.getLast? with
+    | none => simp at hg; exact absurd hg hsegne
+    | some l => exact ⟨l, rfl⟩
+  have hseen := processIrr_st_nofail cfg { a with st := withDb db' a.st } seg b.ref (fun i => (a.st.db.find i).map (·.blk)) hf hn lseg hlseg
+  have hseenR : lseg.blk.ref = R := hslast lseg hlseg
+  generalize hsn' : lseg.blk.ref = seen at hseen hseenR
   have hstfin : (processStalled cfg (processIrr cfg { a with st := withDb db' a.st } seg b.ref
       (fun i => (a.st.db.find i).map (·.blk))) (a.st.db.stalledInSegment seg) b.ref).st =
       { withDb db' a.st with lastLIBSeen := seen } := by
@@ -768,14 +786,13 @@ theorem advance_inv (cfg : Config) (hirr : cfg.matches .irreversible = true) (a 
     simp only [Option.bind_some]
     exact hrun2 _
   · rw [hstfin]
-    apply inv_seen
     have hfind : ∀ x ∈ q2, ∃ e, a.st.db.find x = some e := by
       intro x hx
       have := isPath_present _ _ _ hpq2 x hx
       cases hfx : a.st.db.find x with
       | none => rw [hfx] at this; cases this
       | some e => exact ⟨e, rfl⟩
-    refine ⟨by simp only [withDb, hlibfin]; exact hRne, ?_, ?_, ?_, ?_, ?_, ?_, ?_, ?_, ?_⟩
+    refine ⟨by simp only [withDb, hlibfin]; exact hRne, ?_, ?_, ?_, ?_, ?_, ?_, ?_, ?_, ?_, ?_⟩
     · simp only [withDb]; rw [← hdb']; exact wf_purge _ _ _ hI.wf
     · simp only [withDb]; rw [← hdb']; exact heights_movePurge _ hI.wf hI.heights R cfg.kept er hfer hnumR
     · simp only [withDb, hlibfin]; rw [← hdb']; exact isPath_movePurge _ _ _ _ _ hpq2 hq2high
@@ -800,5 +817,6 @@ theorem advance_inv (cfg : Config) (hirr : cfg.matches .irreversible = true) (a 
       simp only [withDb] at hin
       rw [← hdb'] at hin
       simp [DB.purgeBeforeLIB] at hin
+    · exact Or.inr (by simp only [withDb, hlibfin]; exact hseenR)
 
 end BstreamVerif.Forkable
